@@ -36,9 +36,16 @@ type Validator struct {
 
 // validationContext holds current validation context.
 type validationContext struct {
-	function       *Function
-	functionName   string
-	loopDepth      int
+	function     *Function
+	functionName string
+	loopDepth    int
+	// What control flow the statement being validated may use (WGSL): break
+	// inside a loop body or a switch clause, continue inside a loop body,
+	// return anywhere but in a continuing block. A loop nested in a continuing
+	// block is a new break / continue target; a switch is a new break target.
+	canBreak       bool
+	canContinue    bool
+	noReturn       bool
 	inContinuing   bool
 	expressionUsed map[ExpressionHandle]bool
 }
@@ -534,6 +541,8 @@ func (v *Validator) validateStatement(index int, stmt *Statement) {
 			v.addErrorInStatement(index, fmt.Sprintf("selector expression %d does not exist", kind.Selector))
 		}
 		hasDefault := false
+		oldCanBreak := v.context.canBreak
+		v.context.canBreak = true
 		for _, c := range kind.Cases {
 			if _, ok := c.Value.(SwitchValueDefault); ok {
 				if hasDefault {
@@ -543,6 +552,7 @@ func (v *Validator) validateStatement(index int, stmt *Statement) {
 			}
 			v.validateBlock(c.Body)
 		}
+		v.context.canBreak = oldCanBreak
 		if !hasDefault {
 			v.addErrorInStatement(index, "switch missing default case")
 		}
@@ -550,13 +560,17 @@ func (v *Validator) validateStatement(index int, stmt *Statement) {
 	case StmtLoop:
 		oldDepth := v.context.loopDepth
 		v.context.loopDepth++
+		oldCanBreak, oldCanContinue, oldNoReturn := v.context.canBreak, v.context.canContinue, v.context.noReturn
+		v.context.canBreak, v.context.canContinue = true, true
 
 		v.validateBlock(kind.Body)
 
 		oldContinuing := v.context.inContinuing
 		v.context.inContinuing = true
+		v.context.canBreak, v.context.canContinue, v.context.noReturn = false, false, true
 		v.validateBlock(kind.Continuing)
 		v.context.inContinuing = oldContinuing
+		v.context.canBreak, v.context.canContinue, v.context.noReturn = oldCanBreak, oldCanContinue, oldNoReturn
 
 		if kind.BreakIf != nil {
 			if !v.isValidExpressionHandle(*kind.BreakIf) {
@@ -567,23 +581,25 @@ func (v *Validator) validateStatement(index int, stmt *Statement) {
 		v.context.loopDepth = oldDepth
 
 	case StmtBreak:
-		if v.context.loopDepth == 0 {
-			v.addErrorInStatement(index, "break outside of loop")
-		}
-		if v.context.inContinuing {
-			v.addErrorInStatement(index, "break in continuing block")
+		if !v.context.canBreak {
+			if v.context.inContinuing {
+				v.addErrorInStatement(index, "break in continuing block")
+			} else {
+				v.addErrorInStatement(index, "break outside of loop")
+			}
 		}
 
 	case StmtContinue:
-		if v.context.loopDepth == 0 {
-			v.addErrorInStatement(index, "continue outside of loop")
-		}
-		if v.context.inContinuing {
-			v.addErrorInStatement(index, "continue in continuing block")
+		if !v.context.canContinue {
+			if v.context.inContinuing {
+				v.addErrorInStatement(index, "continue in continuing block")
+			} else {
+				v.addErrorInStatement(index, "continue outside of loop")
+			}
 		}
 
 	case StmtReturn:
-		if v.context.inContinuing {
+		if v.context.noReturn {
 			v.addErrorInStatement(index, "return in continuing block")
 		}
 		if kind.Value != nil {
